@@ -49,10 +49,16 @@ func (bb *DefaultBallotBroadcaster) Ballot(
 func (bb *DefaultBallotBroadcaster) Broadcast(bl base.Ballot) error {
 	l := bb.Log().With().Interface("ballot", bl).Logger()
 
-	if err := bb.set(bl); err != nil {
+	// NOTE local node should not broadcast the different ballots for the same
+	// stage point; if another ballot is already in pool, it will be
+	// broadcasted instead.
+	switch i, err := bb.set(bl); {
+	case err != nil:
 		l.Error().Err(err).Msg("failed to set ballot")
 
 		return err
+	default:
+		bl = i //revive:disable-line:modifies-parameter
 	}
 
 	if err := bb.broadcastFunc(bl); err != nil {
@@ -66,17 +72,33 @@ func (bb *DefaultBallotBroadcaster) Broadcast(bl base.Ballot) error {
 	return nil
 }
 
-func (bb *DefaultBallotBroadcaster) set(bl base.Ballot) error {
+// set keeps the ballot of local node in pool and returns the ballot to be
+// broadcasted; the first ballot of the stage point wins.
+func (bb *DefaultBallotBroadcaster) set(bl base.Ballot) (base.Ballot, error) {
 	bb.l.Lock()
 	defer bb.l.Unlock()
 
 	if !bl.SignFact().Node().Equal(bb.local) {
-		return nil
+		return bl, nil
 	}
 
-	if _, err := bb.pool.SetBallot(bl); err != nil {
-		return errors.WithMessage(err, "set ballot to pool")
+	switch isset, err := bb.pool.SetBallot(bl); {
+	case err != nil:
+		return nil, errors.WithMessage(err, "set ballot to pool")
+	case isset:
+		return bl, nil
 	}
 
-	return nil
+	switch i, found, err := bb.pool.Ballot(
+		bl.Point().Point,
+		bl.Point().Stage(),
+		isaac.IsSuffrageConfirmBallotFact(bl.SignFact().Fact()),
+	); {
+	case err != nil:
+		return nil, errors.WithMessage(err, "get ballot from pool")
+	case !found, i.SignFact().Fact().Hash().Equal(bl.SignFact().Fact().Hash()):
+		return bl, nil
+	default:
+		return i, nil
+	}
 }
